@@ -397,7 +397,7 @@ func noteInputDisplays(v V, ext *Ext) {
 		for _, kv := range v.O {
 			noteInputDisplays(kv.V, ext)
 		}
-	case "fl":
+	case "fl", "so":
 		for _, kv := range v.O {
 			noteInputDisplays(kv.V, ext)
 		}
